@@ -46,7 +46,7 @@ def gen_cell(rng, max_branches=5):
 
 
 def cases(seed, tier):
-    n = 48 if tier == "quick" else 1000
+    n = 48 if tier == "quick" else 600
     out = []
     for k in range(n):
         rng = trees.rng_for(seed, PID, k)
